@@ -1,0 +1,58 @@
+//go:build verif && !windows
+// +build verif,!windows
+
+// Verification hooks (build tag `verif`). Nothing in here is compiled into a
+// normal build. It exposes the unexported `pager` seam so a harness can open a
+// Database on a caller-supplied pager (in-memory image, fault injection,
+// tracing) or wrap the real file pager.
+
+package db
+
+// VerifPager is an exported mirror of the unexported `pager` interface.
+type VerifPager interface {
+	Page(n int, pagesize int) ([]byte, error)
+	Close() error
+	RLock() error
+	RUnlock() error
+	CheckReservedLock() (bool, error)
+}
+
+type verifPagerAdapter struct {
+	p VerifPager
+}
+
+func (a verifPagerAdapter) page(n int, pagesize int) ([]byte, error) {
+	return a.p.Page(n, pagesize)
+}
+func (a verifPagerAdapter) Close() error   { return a.p.Close() }
+func (a verifPagerAdapter) RLock() error   { return a.p.RLock() }
+func (a verifPagerAdapter) RUnlock() error { return a.p.RUnlock() }
+func (a verifPagerAdapter) CheckReservedLock() (bool, error) {
+	return a.p.CheckReservedLock()
+}
+
+// VerifOpen opens a Database on a caller-supplied pager. `journal` is the
+// journal file name to check for hot journals ("" to skip).
+func VerifOpen(p VerifPager, journal string) (*Database, error) {
+	return newDatabase(verifPagerAdapter{p: p}, journal)
+}
+
+type verifFilePager struct {
+	f *filePager
+}
+
+func (v verifFilePager) Page(n int, pagesize int) ([]byte, error) { return v.f.page(n, pagesize) }
+func (v verifFilePager) Close() error                             { return v.f.Close() }
+func (v verifFilePager) RLock() error                             { return v.f.RLock() }
+func (v verifFilePager) RUnlock() error                           { return v.f.RUnlock() }
+func (v verifFilePager) CheckReservedLock() (bool, error)         { return v.f.CheckReservedLock() }
+
+// VerifFilePager gives the real file pager, as used by OpenFile(), as a
+// VerifPager, so it can be wrapped.
+func VerifFilePager(file string) (VerifPager, error) {
+	f, err := newFilePager(file)
+	if err != nil {
+		return nil, err
+	}
+	return verifFilePager{f: f}, nil
+}
